@@ -44,6 +44,32 @@ WATCH = {"Impl", "core", "entrait", "std", "implementation", "unimock", "mockall
          "Vec", "String", "drop", "marker", "future", "convert", "borrow"}
 
 
+KEYWORDS_BEFORE_PATH = {"as", "dyn", "impl", "for", "in", "where", "mut", "const", "return", "else", "unsafe", "move", "ref", "use", "let", "match", "if", "while", "await", "break", "static"}
+
+
+def std_rooted(ts):
+    """Renderings of paths that start with `::std` / `::alloc` anywhere in the token tree."""
+    out = []
+
+    def go(ts):
+        for i, t in enumerate(ts):
+            if "g" in t:
+                go(t["s"])
+            elif t.get("i") in ("std", "alloc") and i >= 2 and tok.is_p(ts[i - 1], ":") and tok.is_p(ts[i - 2], ":") \
+                    and not (i >= 3 and "i" in ts[i - 3] and ts[i - 3]["i"] not in KEYWORDS_BEFORE_PATH) and i + 1 < len(ts) and tok.is_p(ts[i + 1], ":"):
+                # the path itself: `:: seg :: seg ..`
+                j, segs = i, []
+                while j < len(ts) and "i" in ts[j]:
+                    segs.append(ts[j]["i"])
+                    if j + 2 < len(ts) and tok.is_p(ts[j + 1], ":") and tok.is_p(ts[j + 2], ":") and j + 3 < len(ts) and "i" in ts[j + 3]:
+                        j += 3
+                    else:
+                        break
+                out.append("::" + "::".join(segs))
+    go(ts)
+    return out
+
+
 def bare_watch_names(ts):
     """Watch-listed identifiers that are resolved relative to the invoking scope (leftmost path segment, no leading `::`)."""
     bad = []
@@ -143,6 +169,11 @@ pub mod ns_inv {
     #[::entrait::entrait(ref)] impl DynImpl for T2 { pub fn dinv<D>(deps: &D, a: i32) -> (u32, usize, i32) { (32, deps as *const D as *const () as usize, a) } }
     pub struct DynApp(pub T2);
     impl ::core::convert::AsRef<dyn DynImpl<DynApp>> for DynApp { fn as_ref(&self) -> &(dyn DynImpl<DynApp> + 'static) { &self.0 } }
+    #[::entrait::entrait(BorImpl, delegate_by = Borrow)] pub trait BorInv { fn binv(&self, a: i32) -> (u32, usize, i32); }
+    pub struct T3;
+    #[::entrait::entrait(ref)] impl BorImpl for T3 { pub fn binv<D>(deps: &D, a: i32) -> (u32, usize, i32) { (33, deps as *const D as *const () as usize, a) } }
+    pub struct BorApp(pub T3);
+    impl ::core::borrow::Borrow<dyn BorImpl<BorApp>> for BorApp { fn borrow(&self) -> &(dyn BorImpl<BorApp> + 'static) { &self.0 } }
 }
 """
 
@@ -150,7 +181,7 @@ NOSTD_DRIVER = """
 use ::c19nostd::ns_fn::{Foo, Bar, Baz, Conc, ByVal};
 use ::c19nostd::ModTr;
 use ::c19nostd::ns_trait::{Leaf, DynLeaf, BorLeaf};
-use ::c19nostd::ns_inv::{Inv, DynInv};
+use ::c19nostd::ns_inv::{Inv, DynInv, BorInv};
 pub fn run() {
     let app = ::entrait::Impl::new(::c19nostd::App { tag: 1 });
     let a = ::vrt::addr(&app) as usize;
@@ -175,6 +206,8 @@ pub fn run() {
     same!("ainv", ::vrt::block_on(::c19nostd::ns_inv::T1::ainv(&app, 1)), ::vrt::block_on(app.ainv(1)));
     let d = ::entrait::Impl::new(::c19nostd::ns_inv::DynApp(::c19nostd::ns_inv::T2));
     same!("dinv", ::c19nostd::ns_inv::T2::dinv(&d, 4), d.dinv(4));
+    let b = ::entrait::Impl::new(::c19nostd::ns_inv::BorApp(::c19nostd::ns_inv::T3));
+    same!("binv", ::c19nostd::ns_inv::T3::binv(&b, 4), b.binv(4));
 }
 """
 
@@ -245,7 +278,20 @@ def run(tier, seed):
         allc = [x for p in pairs for x in p] + [named, named_h] + drv + [st]
         ws.extend(allc)
         ws.write()
-        b = ws.build()
+        try:
+            b = ws.build()
+        except core.Inconclusive as e:
+            if "c19nostd" not in str(e):
+                raise
+            # the #![no_std] library itself does not compile: that is the no_std clause failing, not a harness problem.
+            # Record it and judge the rest of the corpus without the library.
+            rep.violation("c19_nostd_lib", "no_std:lib-does-not-compile", "the #![no_std] library crate does not compile: %s" % str(e)[:900])
+            by["c19_nostd_lib"] = Case("c19_nostd_lib", NOSTD_LIB, meta={"family": "no_std"})
+            drv = []
+            ws = core.Workspace(PROP, label, unimock=feature, deps=("async-trait",))
+            ws.extend([x for p in pairs for x in p] + [named, named_h, st])
+            ws.write()
+            b = ws.build()
         ws.run(b["exes"])
         selftest.verify(st)
         for c, h in pairs:
@@ -283,6 +329,10 @@ def run(tier, seed):
                 inbad = {x[0] for x in bare_watch_names(r["input"])}
                 bad = [x for x in bad if x[0] not in inbad]
                 rep.bump("expansions_scanned")
+                # a path rooted at `::std` (or `::alloc`) in generated code cannot be resolved in a `#![no_std]` crate
+                nostd = [x for x in std_rooted(r["output"]) if x not in std_rooted(r["input"])]
+                if nostd:
+                    rep.violation(h.id, "std-rooted-path", "generated code contains a path rooted at ::std / ::alloc (a #![no_std] crate cannot resolve it): %s" % nostd[0])
                 if bad:
                     rep.violation(h.id, "bare-name:" + ",".join(sorted({x[0] for x in bad})),
                                   "generated code refers to %s through a path relative to the invoking scope: %s" % (sorted({x[0] for x in bad}), bad[0][1]))
@@ -307,7 +357,7 @@ def run(tier, seed):
             else:
                 f = (c.runrec.get("bin") or {}).get("facts", {})
                 names = [k for k in f if not k.endswith(":value")]
-                if len(names) < 15:
+                if len(names) < 16:
                     raise core.Inconclusive("no_std driver observed too little: %s" % f)
                 for k in names:
                     if f[k] != "true":
@@ -315,7 +365,7 @@ def run(tier, seed):
                     else:
                         rep.bump("no_std_calls_equal")
             rep.count(c.sig(), True)
-    core.floors(rep, twin_runs_equal=n, expansions_scanned=2 * n, no_std_calls_equal=15, marker_named_cases_ok=2)
+    core.floors(rep, twin_runs_equal=n, expansions_scanned=2 * n, no_std_calls_equal=16, marker_named_cases_ok=2)
     rep.assumptions = ["user tokens of these corpora never contain watch-listed names bare (generators use absolute paths), so a bare occurrence is macro-made",
                        "reserved names EntraitT / __impl are never used by the generators"]
     return rep.finish(by)
